@@ -112,6 +112,9 @@ def np_ns(space=None):
         return ex.ctx.ghost["space"].zero()
     def isfinite(ex, x):
         if isinstance(x, OArr):
+            if x.taint == "laundered":
+                # derived from an inf through a division (x / inf == 0): may be finite again -- both outcomes are explored
+                return ex.ctx.choose(2, "laundered-value-is-finite") == 1
             return x.taint is None
         raise OutsideSubset("np.isfinite")
 
